@@ -65,10 +65,18 @@ def gen_structure(rng: random.Random, fmt: str | None = None,
             "hashes": list(hashes), "attrs": attrs}
 
 
-def gen_writes(rng: random.Random, n: int, ids, splits, meta_mode: str) -> list:
+BAD_KINDS = ("shape", "rank", "unsafe_dtype", "foreign_dtype", "container",
+             "missing", "extra", "rank_same_size")
+
+
+def gen_writes(rng: random.Random, n: int, ids, splits, meta_mode: str,
+               bad_rate: float = 0.0, bad_kinds=BAD_KINDS) -> list:
     out = []
     for _ in range(n):
         w = {"split": rng.choice(splits), "id": next(ids)}
+        if bad_rate and rng.random() < bad_rate:
+            w["bad"] = rng.choice(list(bad_kinds))
+            w["bad_attr"] = rng.randrange(0, 8)
         if meta_mode == "none":
             pass
         elif meta_mode == "some":
@@ -85,6 +93,9 @@ def gen_writes(rng: random.Random, n: int, ids, splits, meta_mode: str) -> list:
                 prev = out[-1]["meta"]
                 w["meta"] = [prev[0], prev[1]] if prev[0] != "empty" else [
                     "val", 0]
+                if rng.random() < 0.3 and prev[0] != "empty":
+                    w["meta"] = [rng.choice(["reord", "same", "val"]),
+                                 prev[1]]
             else:
                 w["meta"] = [rng.choice(["val", "val", "same", "mut"]),
                              rng.randrange(len(META_VALUES))]
@@ -96,7 +107,8 @@ def gen_writes(rng: random.Random, n: int, ids, splits, meta_mode: str) -> list:
 
 def gen_session(rng: random.Random, ids, eps: int, kinds, splits,
                 meta_modes=("none", "none", "some", "runs"),
-                max_writers: int = 4, subdirs=SUBDIRS) -> dict:
+                max_writers: int = 4, subdirs=SUBDIRS, bad_rate: float = 0.0,
+                bad_kinds=BAD_KINDS) -> dict:
     kind = rng.choice(list(kinds))
     meta_mode = rng.choice(list(meta_modes))
     anchors = [0, 1, eps - 1, eps, eps + 1, 2 * eps, 2 * eps + 1, 3 * eps + 1]
@@ -106,10 +118,12 @@ def gen_session(rng: random.Random, ids, eps: int, kinds, splits,
 
     ses = {"kind": kind, "reopen": rng.random() < 0.5}
     if kind == "root":
-        ses["writes"] = gen_writes(rng, count(), ids, splits, meta_mode)
+        ses["writes"] = gen_writes(rng, count(), ids, splits, meta_mode,
+                                   bad_rate, bad_kinds)
     elif kind == "sub":
         ses["rel"] = rng.choice(list(subdirs))
-        ses["writes"] = gen_writes(rng, count(), ids, splits, meta_mode)
+        ses["writes"] = gen_writes(rng, count(), ids, splits, meta_mode,
+                                   bad_rate, bad_kinds)
     elif kind == "multi":
         nw = rng.randrange(1, max_writers + 1)
         ses["writers"] = [
@@ -126,14 +140,16 @@ def gen_history(rng: random.Random, n_sessions=None, fmt=None,
                 formats=("fb", "fb", "npz", "npz", "tfrec"),
                 meta_modes=("none", "none", "some", "runs"),
                 max_payload: int = 2, hashes=None, splits=None,
-                subdirs=SUBDIRS, max_writers: int = 4) -> dict:
+                subdirs=SUBDIRS, max_writers: int = 4, bad_rate: float = 0.0,
+                bad_kinds=BAD_KINDS) -> dict:
     st = gen_structure(rng, fmt, formats, max_payload, hashes)
     if splits is None:
         splits = rng.sample(SPLITS, rng.randrange(1, 4))
     ns = n_sessions if n_sessions is not None else rng.randrange(1, 5)
     counter = iter(range(1, 10**9))
     sessions = [gen_session(rng, counter, st["eps"], kinds, splits,
-                            meta_modes, max_writers, subdirs)
+                            meta_modes, max_writers, subdirs, bad_rate,
+                            bad_kinds)
                 for _ in range(ns)]
     return {"structure": st, "splits": splits, "sessions": sessions,
             "name_seed": rng.getrandbits(48),
@@ -204,11 +220,49 @@ def resolve_meta(spec, shared: dict):
         return copy.deepcopy(val), copy.deepcopy(val)
     if kind == "same":
         return json.loads(json.dumps(val)), copy.deepcopy(val)
+    if kind == "reord":
+        # an equal dict with the opposite key insertion order
+        return dict(reversed(list(copy.deepcopy(val).items()))), \
+            copy.deepcopy(val)
     if kind == "mut":
         shared.clear()
         shared.update(copy.deepcopy(val))
         return shared, copy.deepcopy(val)
     raise ValueError(spec)
+
+
+def bad_values(attrs: list, w: dict, fmt: str) -> dict:
+    """A deliberately wrong example (write-time validation, C18/C04)."""
+    vals = values_for(attrs, w["id"], fmt)
+    a = attrs[w.get("bad_attr", 0) % len(attrs)]
+    name = a["name"]
+    shape = tuple(a["shape"])
+    dt = np.dtype(a["dtype"])
+    kind = w["bad"]
+    if kind == "unsafe_dtype_fb":
+        kind = "unsafe_dtype" if fmt == "fb" else "shape"
+    if kind == "extra_tfrec":
+        kind = "extra" if fmt == "tfrec" else "shape"
+    good = np.asarray(vals[name])
+    if kind == "shape":
+        vals[name] = np.zeros(tuple(d + 1 for d in shape) or (2,), dtype=dt)
+    elif kind == "rank":
+        vals[name] = np.zeros(shape + (2,), dtype=dt)
+    elif kind == "rank_same_size":
+        vals[name] = good.reshape((1,) + shape)
+    elif kind == "unsafe_dtype":
+        wider = {"f": np.complex128 if dt == np.float64 else np.float64,
+                 "i": np.float64, "u": np.float64}[dt.kind]
+        vals[name] = (good.astype(wider) + wider(0.5)).reshape(shape)
+    elif kind == "foreign_dtype":
+        vals[name] = np.full(shape, "x", dtype="U3")
+    elif kind == "container":
+        vals[name] = [[1, 2], [3]] if shape else {"not": "an array"}
+    elif kind == "missing":
+        del vals[name]
+    elif kind == "extra":
+        vals["surplus_attribute"] = np.zeros((1,), dtype=np.int8)
+    return vals
 
 
 # ------------------------------------------------------------ seams (names)
@@ -333,7 +387,7 @@ class HistoryRunner:
         self.ds = None
         self.pool_factory = pool_factory
         self.on_write = on_write
-        self.bad_values = bad_values
+        self.bad_values = bad_values or globals()["bad_values"]
         self.rejected: list = []
         self.accepted_bad: list = []
         self.session_no = -1
